@@ -122,17 +122,17 @@ CHECKS = {
  'C01': dict(
     cat='translation_validation', ref='DESIGN.md §2.3, §3 C01', engine='E3-shellsem',
     text="Every generated program of the family (real Builder.build output, regenerated each run) is executed symbolically from clang's typed AST: handlers on the far side of every slot, every slot invoked with fresh symbolic arguments; exactly-once delivery to the same-named port/event, argument integrity for ALL argument values (z3 validity), reply and out/inout propagation.",
-    note='Trusted base: clang-14 typed AST, the ShellSem abstract machine (vf/shellsem) with library/runtime intrinsics, the mock Dezyne runtime and mock model header; the machine is validated against the g++-compiled program on sampled programs every run and every finding is replayed on the compiled program. Quantifier over models = the 168-program family (vf/family.py); generated headers get #pragma once in the scratch copy.',
+    note='Trusted base: clang-14 typed AST, the ShellSem abstract machine (vf/shellsem) with library/runtime intrinsics, the mock Dezyne runtime and mock model header; the machine is validated against the g++-compiled program on sampled programs every run and every finding is replayed on the compiled program. Quantifier over models = the program family of vf/family.py (237 programs quick, 648 thorough); generated headers get #pragma once in the scratch copy.',
     technique='symbolic execution of the generated C++ (clang AST -> ShellSem abstract machine over z3 terms), per-program translation validation + g++ replay'),
  'C02': dict(
     cat='translation_validation', ref='DESIGN.md §2.3, §3 C02', engine='E3-shellsem',
     text='Same symbolic execution with execution-context and lifetime tracking: MTS provides in-events run in dispatcher context and return the reply; MTS requires out-events are queued once, return immediately and later run with the call-time values after the caller frame died (by-reference captures surface as dead reads); STS events never touch the dispatcher; accessor types (clang-resolved) and port identity match the configured semantics.',
-    note='Trusted base: clang-14 typed AST, the ShellSem abstract machine (vf/shellsem) with library/runtime intrinsics, the mock Dezyne runtime and mock model header; the machine is validated against the g++-compiled program on sampled programs every run and every finding is replayed on the compiled program. Quantifier over models = the 168-program family (vf/family.py); generated headers get #pragma once in the scratch copy.',
+    note='Trusted base: clang-14 typed AST, the ShellSem abstract machine (vf/shellsem) with library/runtime intrinsics, the mock Dezyne runtime and mock model header; the machine is validated against the g++-compiled program on sampled programs every run and every finding is replayed on the compiled program. Quantifier over models = the program family of vf/family.py (237 programs quick, 648 thorough); generated headers get #pragma once in the scratch copy.',
     technique='symbolic execution of the generated C++ (clang AST -> ShellSem), context/lifetime tracking, g++/ASan replay'),
  'C04': dict(
     cat='translation_validation', ref='DESIGN.md §2.3, §3 C04', engine='E3-shellsem',
     text='One inductive step of the multi-client selector from every pre-state (nobody / client k holds, reached by a real granted-claim history) x every operation (claim with symbolic reply, release, other in-event, by every client), executed on the generated InitializePort lambdas and the generated MultiClientSelector/MutexWrapped code; afterwards every component out-event must reach exactly the holder. Known finding: release by a non-holder clears the selection.',
-    note='Trusted base: clang-14 typed AST, the ShellSem abstract machine (vf/shellsem) with library/runtime intrinsics, the mock Dezyne runtime and mock model header; the machine is validated against the g++-compiled program on sampled programs every run and every finding is replayed on the compiled program. Quantifier over models = the 168-program family (vf/family.py); generated headers get #pragma once in the scratch copy.',
+    note='Trusted base: clang-14 typed AST, the ShellSem abstract machine (vf/shellsem) with library/runtime intrinsics, the mock Dezyne runtime and mock model header; the machine is validated against the g++-compiled program on sampled programs every run and every finding is replayed on the compiled program. Quantifier over models = the program family of vf/family.py (237 programs quick, 648 thorough); generated headers get #pragma once in the scratch copy.',
     technique='symbolic execution of the generated C++ (ShellSem), inductive step over selector states with symbolic claim reply, g++ replay'),
  'C11': dict(
     cat='model_checking', ref='DESIGN.md §2.3 (threads), §3 C11', engine='E3-shellsem-threads',
@@ -142,12 +142,12 @@ CHECKS = {
  'C09': dict(
     cat='translation_validation', ref='DESIGN.md §2.3, §3 C09', engine='E3-shellsem',
     text='Constructor, FacilitiesCheck and Locator() executed with the presence of dispatcher/runtime/other service in the user locator as symbolic Booleans: throws exactly for the forbidden combinations (z3 validity per path), otherwise identities of dispatcher/runtime/locator and contents of both locators checked on the object graph; member initialisation order from clang.',
-    note='Trusted base: clang-14 typed AST, the ShellSem abstract machine (vf/shellsem) with library/runtime intrinsics, the mock Dezyne runtime and mock model header; the machine is validated against the g++-compiled program on sampled programs every run and every finding is replayed on the compiled program. Quantifier over models = the 168-program family (vf/family.py); generated headers get #pragma once in the scratch copy.',
+    note='Trusted base: clang-14 typed AST, the ShellSem abstract machine (vf/shellsem) with library/runtime intrinsics, the mock Dezyne runtime and mock model header; the machine is validated against the g++-compiled program on sampled programs every run and every finding is replayed on the compiled program. Quantifier over models = the program family of vf/family.py (237 programs quick, 648 thorough); generated headers get #pragma once in the scratch copy.',
     technique='symbolic execution of the generated C++ (ShellSem) with symbolic locator contents, g++ replay'),
  'C10': dict(
     cat='translation_validation', ref='DESIGN.md §2.3, §3 C10', engine='E3-shellsem',
     text='FinalConstruct (and MultiClientSelector::FinalConstruct, port check_bindings) executed with one symbolic Boolean per bindable slot (both sides, every registered client): on the normally-returning path z3 proves all slots bound; parent recorded; late client registration refused.',
-    note='Trusted base: clang-14 typed AST, the ShellSem abstract machine (vf/shellsem) with library/runtime intrinsics, the mock Dezyne runtime and mock model header; the machine is validated against the g++-compiled program on sampled programs every run and every finding is replayed on the compiled program. Quantifier over models = the 168-program family (vf/family.py); generated headers get #pragma once in the scratch copy.',
+    note='Trusted base: clang-14 typed AST, the ShellSem abstract machine (vf/shellsem) with library/runtime intrinsics, the mock Dezyne runtime and mock model header; the machine is validated against the g++-compiled program on sampled programs every run and every finding is replayed on the compiled program. Quantifier over models = the program family of vf/family.py (237 programs quick, 648 thorough); generated headers get #pragma once in the scratch copy.',
     technique='symbolic execution of the generated C++ (ShellSem) with symbolic binding state, g++ replay'),
 }
 
